@@ -50,6 +50,7 @@ class Backend(object):
         self.on_write = None           # callable(bytes): the device consumes host bytes
         self.on_need = None            # callable(): let the device produce more inbuf
         self.kernel_active = True
+        self.gone = False              # the device was unplugged: descriptor reads fail too
 
 
 BACKEND = Backend()
@@ -96,6 +97,8 @@ class Handle(object):
             raise USBErrorNoDevice('handle closed')
         e = b.errors.get(k)
         if e and name in ('bulkRead', 'bulkWrite'):
+            if e == 'nodevice':
+                b.gone = True
             raise ERRORS[e]('injected %s at backend call %d' % (e, k))
 
     def kernelDriverActive(self, iface):
@@ -156,6 +159,8 @@ class Device(object):
         return [2, 3]
 
     def getSerialNumber(self):
+        if BACKEND.gone:
+            raise USBErrorNoDevice('device is gone')
         return 'FAKESERIAL'
 
 
